@@ -24,7 +24,7 @@
 (* kinds:  sf SingleFlight   lc LockedCalls   lim Limit   tl TimeoutLimit  *)
 (*         pool Pool   ref RefResource   rm ResourceManager                *)
 (*         mr ManagedResource   spin SpinLock/Barrier   og OnceGuard       *)
-(*         dc DoneChan   once Once                                         *)
+(*         dc DoneChan   once Once   ir ImmutableResource                  *)
 (***************************************************************************)
 EXTENDS Integers, Sequences, FiniteSets, TLC, Json
 
@@ -60,7 +60,8 @@ InitState(e) ==
     [] e.kind = "lc"   -> [holder |-> [k \in {"a", "b", "c"} |-> -1]]
     [] e.kind = "lim"  -> [out |-> 0, n |-> e.n]
     [] e.kind = "tl"   -> [out |-> 0, n |-> e.n]
-    [] e.kind = "pool" -> [idle |-> {}, live |-> {}, held |-> {}, fresh |-> {}, n |-> e.n, dead |-> {}]
+    [] e.kind = "pool" -> [idle |-> {}, live |-> {}, held |-> {}, fresh |-> {}, n |-> e.n, dead |-> {},
+                            age |-> e.age, used |-> <<>>]     \* age: max idle age in ms (0 = none); used: r -> time of its last Put
     [] e.kind = "ref"  -> [ref |-> 0, cleaned |-> FALSE, cbs |-> 0]
     [] e.kind = "rm"   -> [res |-> [k \in {"a", "b", "c"} |-> 0], made |-> {}, closed |-> {}, fails |-> [k \in {"a", "b", "c"} |-> 0]]
     [] e.kind = "mr"   -> [cur |-> 0, gens |-> {}]
@@ -68,6 +69,7 @@ InitState(e) ==
     [] e.kind = "og"   -> [taken |-> FALSE]
     [] e.kind = "dc"   -> [closing |-> FALSE]
     [] e.kind = "once" -> [runs |-> 0, running |-> FALSE]
+    [] e.kind = "ir"   -> [res |-> 0, tried |-> FALSE, last |-> 0, every |-> e.every, err |-> 0]
 
 \* a reset is only legal at quiescence: every call of the previous history has returned
 Reset ==
@@ -214,6 +216,8 @@ PoolCreate ==
 PoolDestroy ==                         \* destroy callback runs inside some Get
   /\ kind = "pool" /\ Is("destroy") /\ (\E p \in Procs : pc[p].s = "get")
   /\ Ev.r \in st.idle
+  \* (the statement forbids reusing a resource idle beyond its maximum age; it does not forbid
+  \*  destroying a younger one, so no age condition here)
   /\ st' = [st EXCEPT !.idle = @ \ {Ev.r}, !.live = @ \ {Ev.r}, !.dead = @ \cup {Ev.r}]
   /\ UNCHANGED <<kind, pc>> /\ Consume
 
@@ -222,14 +226,17 @@ PoolGetRet ==
   /\ \/ /\ Ev.r \in st.fresh
         /\ st' = [st EXCEPT !.fresh = @ \ {Ev.r}, !.held = @ \cup {Ev.r}]
      \/ /\ Ev.r \in st.idle
+        /\ ~(st.age > 0 /\ st.used[Ev.r] + st.age < Ev.now)   \* never reuse one idle beyond its maximum age
         /\ st' = [st EXCEPT !.idle = @ \ {Ev.r}, !.held = @ \cup {Ev.r}]
   /\ SetPc(P, Idle)
   /\ UNCHANGED kind /\ Consume
 
+\* (`now` is the virtual clock, which the driver moves only while no call is in progress whenever
+\* age > 0, so the time a Put stamps and the time a Get compares with are unambiguous)
 PoolPutInv ==
   /\ kind = "pool" /\ Is("inv") /\ Ev.op = "put" /\ pc[P] = Idle
   /\ Ev.r \in st.held
-  /\ st' = [st EXCEPT !.held = @ \ {Ev.r}, !.idle = @ \cup {Ev.r}]
+  /\ st' = [st EXCEPT !.held = @ \ {Ev.r}, !.idle = @ \cup {Ev.r}, !.used = (Ev.r :> Ev.now) @@ @]
   /\ SetPc(P, [s |-> "put"])
   /\ UNCHANGED kind /\ Consume
 
@@ -447,6 +454,34 @@ OnceRet ==
   /\ SetPc(P, Idle)
   /\ UNCHANGED <<kind, st>> /\ Consume
 
+(* ------------------------------------------------------------------ ImmutableResource (ir)
+   (sequential histories under the virtual clock)
+   contract: once fetched successfully the resource is never fetched again and every Get returns
+             it; after a failed fetch the next fetch happens only when more than `every` ms of
+             virtual time have passed since the last attempt; meanwhile Get reports that error.  *)
+
+IrInv ==
+  /\ kind = "ir" /\ Is("inv") /\ pc[P] = Idle
+  /\ SetPc(P, [s |-> "get", now |-> Ev.now, fetched |-> FALSE])
+  /\ UNCHANGED <<kind, st>> /\ Consume
+
+IrFetch ==
+  /\ kind = "ir" /\ Is("fetch") /\ pc[P].s = "get" /\ ~pc[P].fetched
+  /\ st.res = 0                                             \* never again after a success
+  /\ (~st.tried \/ st.last + st.every < pc[P].now)           \* not before the refresh interval passed
+  /\ st' = [st EXCEPT !.tried = TRUE, !.last = pc[P].now,
+                       !.res = IF Ev.v > 0 THEN Ev.v ELSE 0, !.err = IF Ev.v > 0 THEN 0 ELSE Ev.v]
+  /\ SetPc(P, [pc[P] EXCEPT !.fetched = TRUE])
+  /\ UNCHANGED kind /\ Consume
+
+IrRet ==
+  /\ kind = "ir" /\ Is("ret") /\ pc[P].s = "get"
+  /\ IF st.res # 0 THEN Ev.v = st.res ELSE (st.tried /\ Ev.v = st.err)
+  \* a Get that finds nothing cached and is allowed to fetch must have fetched
+  /\ (st.res = 0 /\ ~pc[P].fetched) => (st.tried /\ ~(st.last + st.every < pc[P].now))
+  /\ SetPc(P, Idle)
+  /\ UNCHANGED <<kind, st>> /\ Consume
+
 (* ------------------------------------------------------------------ next-state relation *)
 
 Logged ==
@@ -462,6 +497,7 @@ Logged ==
   \/ OgInv \/ OgRet
   \/ DcInv \/ DcRet
   \/ OnceInv \/ OnceFnB \/ OnceFnE \/ OnceRet
+  \/ IrInv \/ IrFetch \/ IrRet
 
 Internal ==
   \E p \in Procs : SfRegister(p) \/ SfDelete(p) \/ LimLin(p) \/ RefLin(p) \/ MrMarkLin(p)
